@@ -1,5 +1,5 @@
 """core.dispatcher / core.helpers / core.event / core.logs (C03, C12, C13, C14, C15)."""
-from pyvc.contracts import contract, specfun
+from pyvc.contracts import contract, specfun, class_invariant
 
 D = "basana.core.dispatcher."
 H = "basana.core.helpers."
@@ -105,22 +105,34 @@ for var, kw, loops_ in ((None, {}, WAIT_LOOP_DEFAULT), ("shared", SHARED, WAIT_L
 # event sources and the multiplexer (C12 global order, C03, C15)
 # ---------------------------------------------------------------------------------------------------------------------
 EV = "basana.core.event."
-contract(EV + "EventSource.pop", abstract=True, props=["C12"], returns="Opt[Event]",
+PENDING_KEPT = ("pending_kept", "forall(lambda e=Event: (e in self.pending) == old(e in self.pending))")
+contract(EV + "EventSource.pop", abstract=True, props=["C12", "C03"], returns="Opt[Event]",
+         ensures=[("from_pending", "is_none(result) or (result in self.pending)"), PENDING_KEPT],
          modifies=["owned(self)"],
          notes="interface contract of every event source: pop() returns an event or None and changes only the source")
 contract(EV + "FifoQueueEventSource.pop", props=["C12"], returns="Opt[Event]",
          ensures=[("fifo", "ite(old(len(self._queue)) == 0, is_none(result) and len(self._queue) == 0, "
                            "not_none(result) and same_object(result, old(seq_at(self._queue, 0))) and len(self._queue) == old(len(self._queue)) - 1 "
-                           "and forall(lambda i=Int: implies(0 <= i and i < len(self._queue), same_object(seq_at(self._queue, i), old(seq_at(self._queue, i + 1))))))")],
+                           "and forall(lambda i=Int: implies(0 <= i and i < len(self._queue), same_object(seq_at(self._queue, i), old(seq_at(self._queue, i + 1))))))"),
+                 ("from_pending", "is_none(result) or (result in self.pending)"), PENDING_KEPT],
          modifies=["content(self._queue)"])
-contract(EV + "FifoQueueEventSource.push", props=["C12"],
-         ensures=[("appended", "len(self._queue) == old(len(self._queue)) + 1 and same_object(seq_at(self._queue, old(len(self._queue))), event) "
+class_invariant("FifoQueueEventSource", [("queued_are_pending", "forall(lambda i=Int: implies(0 <= i and i < len(self._queue), seq_at(self._queue, i) in self.pending))")],
+                private=["_queue"], props=["C03"])
+contract(EV + "FifoQueueEventSource.push", props=["C12", "C03"],
+         ghost_exit=[("self.pending", "mset_add(self.pending, event)")],
+         ensures=[("produced", "forall(lambda e=Event: (e in self.pending) == (old(e in self.pending) or same_object(e, event)))"),
+                  ("appended", "len(self._queue) == old(len(self._queue)) + 1 and same_object(seq_at(self._queue, old(len(self._queue))), event) "
                                "and forall(lambda i=Int: implies(0 <= i and i < old(len(self._queue)), same_object(seq_at(self._queue, i), old(seq_at(self._queue, i)))))")],
-         modifies=["content(self._queue)"])
+         modifies=["content(self._queue)", "self.pending"])
 
 MUX = D + "EventMultiplexer."
 # slot(s): the prefetched (look-ahead) event of source s
 specfun("mux_due", ["m", "s", "t"], "(s in m._prefetched_events) and not_none(m._prefetched_events[s]) and m._prefetched_events[s].when <= t")
+class_invariant("EventMultiplexer", [("slots_are_pending", "forall(lambda s=EventSource: implies((s in self._prefetched_events) and not_none(self._prefetched_events[s]), "
+                                                            "self._prefetched_events[s] in s.pending))")],
+                private=["_prefetched_events"], props=["C03"],
+                stable_under="EventSource.pending only grows (rely of every dispatcher coroutine; pop() keeps it)")
+ALL_PENDING_KEPT = ("pending_kept", "forall(lambda s=EventSource: forall(lambda e=Event: (e in s.pending) == old(e in s.pending)))")
 contract(MUX + "__init__", props=["C12"], ensures=[("empty", "len(self._prefetched_events) == 0")], modifies=["self"])
 contract(MUX + "add", props=["C12"],
          ensures=[("added", "source in self._prefetched_events"),
@@ -130,17 +142,21 @@ contract(MUX + "add", props=["C12"],
          modifies=["content(self._prefetched_events)"])
 MUX_MOD = ["content(self._prefetched_events)", "every(EventSource)"]
 contract(MUX + "_prefetch", props=["C12"],
-         ensures=[("sources_kept", "forall(lambda s=EventSource: (s in self._prefetched_events) == old(s in self._prefetched_events))"),
+         ensures=[ALL_PENDING_KEPT,
+                  ("slots_are_pending", "forall(lambda s=EventSource: implies((s in self._prefetched_events) and not_none(self._prefetched_events[s]), self._prefetched_events[s] in s.pending))"),
+                  ("sources_kept", "forall(lambda s=EventSource: (s in self._prefetched_events) == old(s in self._prefetched_events))"),
                   ("filled_kept", "forall(lambda s=EventSource: implies(old(s in self._prefetched_events) and old(not_none(self._prefetched_events[s])), "
                                   "same_object(self._prefetched_events[s], old(self._prefetched_events[s]))))")],
          modifies=MUX_MOD,
          loops={0: dict(invariant=[
+             ("pending_kept", "forall(lambda s=EventSource: forall(lambda e=Event: (e in s.pending) == ENTRY(e in s.pending)))"),
+             ("slots_are_pending", "forall(lambda s=EventSource: implies((s in self._prefetched_events) and not_none(self._prefetched_events[s]), self._prefetched_events[s] in s.pending))"),
              ("sources_kept", "forall(lambda s=EventSource: (s in self._prefetched_events) == ENTRY(s in self._prefetched_events))"),
              ("filled_kept", "forall(lambda s=EventSource: implies(ENTRY(s in self._prefetched_events) and ENTRY(not_none(self._prefetched_events[s])), "
                              "same_object(self._prefetched_events[s], ENTRY(self._prefetched_events[s]))))")],
              modifies=MUX_MOD)})
 contract(MUX + "peek_next_event_dt", props=["C12", "C03"], returns="Opt[DT]",
-         ensures=[("sources_kept", "forall(lambda s=EventSource: (s in self._prefetched_events) == old(s in self._prefetched_events))"),
+         ensures=[ALL_PENDING_KEPT, ("sources_kept", "forall(lambda s=EventSource: (s in self._prefetched_events) == old(s in self._prefetched_events))"),
                   ("filled_kept", "forall(lambda s=EventSource: implies(old(s in self._prefetched_events) and old(not_none(self._prefetched_events[s])), "
                                   "same_object(self._prefetched_events[s], old(self._prefetched_events[s]))))"),
                   ("none_iff_no_event", "is_none(result) == forall(lambda s=EventSource: implies(s in self._prefetched_events, is_none(self._prefetched_events[s])))"),
@@ -148,7 +164,10 @@ contract(MUX + "peek_next_event_dt", props=["C12", "C03"], returns="Opt[DT]",
                   ("attained", "implies(not_none(result), exists(lambda s=EventSource: (s in self._prefetched_events) and not_none(self._prefetched_events[s]) and self._prefetched_events[s].when == result))")],
          modifies=MUX_MOD)
 contract(MUX + "pop", props=["C12", "C03", "C15"], returns="Tuple[Opt[EventSource],Opt[Event]]",
-         ensures=[("both_or_none", "is_none(result[0]) == is_none(result[1])"),
+         ensures=[ALL_PENDING_KEPT,
+                  # C03: what pop hands out is an event its source had already produced
+                  ("from_pending", "implies(not_none(result[1]), result[1] in result[0].pending)"),
+                  ("both_or_none", "is_none(result[0]) == is_none(result[1])"),
                   ("sources_kept", "forall(lambda s=EventSource: (s in self._prefetched_events) == old(s in self._prefetched_events))"),
                   ("due", "implies(not_none(result[1]), result[1].when <= max_dt and old(result[0] in self._prefetched_events))"),
                   ("consumed", "implies(not_none(result[0]), is_none(self._prefetched_events[result[0]]))"),
@@ -161,6 +180,8 @@ contract(MUX + "pop", props=["C12", "C03", "C15"], returns="Tuple[Opt[EventSourc
                               "same_object(self._prefetched_events[s], old(self._prefetched_events[s])))))")],
          modifies=MUX_MOD,
          loops={0: dict(invariant=[
+             ("pending_kept", "forall(lambda s=EventSource: forall(lambda e=Event: (e in s.pending) == ENTRY(e in s.pending)))"),
+             ("slots_are_pending", "forall(lambda s=EventSource: implies((s in self._prefetched_events) and not_none(self._prefetched_events[s]), self._prefetched_events[s] in s.pending))"),
              ("sources_kept", "forall(lambda s=EventSource: (s in self._prefetched_events) == ENTRY(s in self._prefetched_events))"),
              ("both", "is_none(ret_source) == is_none(ret_event)"),
              ("cand", "implies(not_none(ret_event), (ret_source in SEEN) and same_object(self._prefetched_events[ret_source], ret_event) and ret_event.when <= max_dt)"),
@@ -183,7 +204,8 @@ for nm in ("handler", "job", "idle_handler"):
 DISP_RELY = dict(
     rely_havoc=["self._stopped", "content(self._scheduler_queue._queue)", "every(EventSource)"],
     rely=[("stop_is_sticky", "implies(old(self._stopped), self._stopped)"),
-          ("jobs_only_added", "forall(lambda j=ScheduledJob: implies(old(j in self._scheduler_queue._queue), j in self._scheduler_queue._queue))")])
+          ("jobs_only_added", "forall(lambda j=ScheduledJob: implies(old(j in self._scheduler_queue._queue), j in self._scheduler_queue._queue))"),
+          ("events_only_added", "forall(lambda s=EventSource: forall(lambda e=Event: implies(old(e in s.pending), e in s.pending)))")])
 
 # the same rely for coroutines that never look at an event source (the untyped list-length array cannot tell a handler
 # list from a source's queue, so the havoc of the sources is left out where it is unobservable; assumption: a list of
@@ -301,17 +323,30 @@ contract(BD + "_dispatch_scheduled", props=["C13", "C12"], types={"dt": "DT"},
              ("clock_not_past_dt", "implies(not_none(self._last_dt), (not_none(ENTRY(self._last_dt)) and self._last_dt == ENTRY(self._last_dt)) or self._last_dt <= dt)")],
              modifies=["self._last_dt", "content(self._scheduler_queue._queue)"] + POOL_MOD)},
          **DISP_RELY)
+COLLECTED = ("forall(lambda i=Int: implies(0 <= i and i < len({0}), "
+             "let(lambda s=seq_at({0}, i)[0], e=seq_at({0}, i)[1]: old(e in s.pending) and e.when <= dt)))")
 contract(BD + "_dispatch_events", props=["C12", "C03"], types={"dt": "DT"},
          requires=[("pool_idle", "pool_idle(self)"),
                    ("not_backwards", "implies(not_none(self._last_dt), dt >= self._last_dt)")],
          ensures=[("clock_is_pass_time", "not_none(self._last_dt) and self._last_dt == dt"),
                   # C12/C03: all handlers of this pass have finished before the clock can move on
                   ("barrier", "pool_idle(self)")],
+         # C03: the pass consists of events that existed when it began -- an event published by a handler of this very
+         # pass (the exchange re-publishing a bar, an order update) waits for the next pass, whatever the pool size
+         site_pre={"push#0": [("no_late_joiners", "old(evnt in source.pending)")]},
          may_suspend=True, cancellable=True, raises={"CancelledError": []},
          modifies=["self._last_dt", "content(self._event_mux._prefetched_events)", "every(EventSource)"] + POOL_MOD,
          loops={0: dict(invariant=[("clock_is_pass_time", "not_none(self._last_dt) and self._last_dt == dt"),
-                                   ("pool_wf", "tp_wf(self._handlers_task_pool)")],
-                        modifies=["content(self._event_mux._prefetched_events)", "every(EventSource)"] + POOL_MOD)},
+                                   ("pool_wf", "tp_wf(self._handlers_task_pool)"),
+                                   ("collected_at_pass_start", "ifdef('events', " + COLLECTED.format("events") + ")")],
+                        modifies=["content(self._event_mux._prefetched_events)", "every(EventSource)"] + POOL_MOD),
+                # the pass is materialised before anything is awaited: list(pop_while(dt))
+                "list(pop_while)": dict(invariant=[
+                    ("clock_is_pass_time", "not_none(self._last_dt) and self._last_dt == dt"),
+                    ("pool_idle", "pool_idle(self)"),
+                    ("nothing_published_yet", "forall(lambda s=EventSource: forall(lambda e=Event: (e in s.pending) == old(e in s.pending)))"),
+                    ("collected_at_pass_start", COLLECTED.format("RESULT"))],
+                    modifies=["content(self._event_mux._prefetched_events)", "every(EventSource)", "content(RESULT)"])},
          **DISP_RELY)
 contract(BD + "_dispatch_loop", props=["C12", "C13"],
          requires=[("pool_idle", "pool_idle(self)")],
